@@ -22,6 +22,7 @@ const modPath = "github.com/resgateio/resgate"
 // Prog is the loaded, type-checked program in SSA form plus the indexes the
 // rules work on. Everything is rebuilt from the working tree on every run.
 type Prog struct {
+	roleMemo    map[string]*ssa.Function
 	implDepth   int // recursion depth of helperImplies
 	boundMakers map[*ssa.Function][]*ssa.MakeClosure // bound-method wrapper -> the places that make the method value
 	fieldSeen   map[string]string                    // anchor -> type, recorded for `resverif anchors`
@@ -140,9 +141,45 @@ func Load(dir string, goarch string) (*Prog, error) {
 	for _, f := range p.Repo {
 		p.ByNm[fnName(f)] = f
 	}
+	p.indexContainerTypes()
 	p.index()
 	p.CG = vta.CallGraph(all, cha.CallGraph(prog))
 	return p, nil
+}
+
+// indexContainerTypes fills containerTypeField for this program's types.
+func (p *Prog) indexContainerTypes() {
+	count := map[*types.Named]int{}
+	pick := map[*types.Named]*types.Var{}
+	for _, pk := range p.Typs {
+		for _, nm := range pk.Scope().Names() {
+			tn, ok := pk.Scope().Lookup(nm).(*types.TypeName)
+			if !ok {
+				continue
+			}
+			st, ok := tn.Type().Underlying().(*types.Struct)
+			if !ok {
+				continue
+			}
+			for k := 0; k < st.NumFields(); k++ {
+				f := st.Field(k)
+				n, ok := f.Type().(*types.Named)
+				if !ok || n.Obj() == nil || n.Obj().Pkg() == nil || !strings.HasPrefix(n.Obj().Pkg().Path(), modPath) {
+					continue
+				}
+				switch n.Underlying().(type) {
+				case *types.Slice, *types.Map:
+					count[n]++
+					pick[n] = f
+				}
+			}
+		}
+	}
+	for n, c := range count {
+		if c == 1 && n.NumMethods() > 0 {
+			containerTypeField[n] = pick[n]
+		}
+	}
 }
 
 func (p *Prog) index() {
@@ -171,10 +208,21 @@ func (p *Prog) index() {
 							p.stores[fv] = append(p.stores[fv], x)
 						}
 					}
+					// `*q = ...` in a method of a container type one field has
+					if prm, ok := x.Addr.(*ssa.Parameter); ok {
+						if fv := containerFieldOfRecv(prm); fv != nil {
+							p.stores[fv] = append(p.stores[fv], x)
+						}
+					}
 				case *ssa.UnOp:
 					if x.Op == token.MUL {
 						if fa, ok := x.X.(*ssa.FieldAddr); ok {
 							if fv := fieldOfAddr(fa); fv != nil {
+								p.loads[fv] = append(p.loads[fv], x)
+							}
+						}
+						if prm, ok := x.X.(*ssa.Parameter); ok {
+							if fv := containerFieldOfRecv(prm); fv != nil {
 								p.loads[fv] = append(p.loads[fv], x)
 							}
 						}
@@ -205,6 +253,57 @@ func fieldOfAddr(fa *ssa.FieldAddr) *types.Var {
 // method that was renamed is found through its receiver type when exactly
 // one method has a similar name.
 func (p *Prog) Fn(name string) *ssa.Function {
+	if f := p.ByNm[name]; f != nil {
+		return f
+	}
+	if f := p.fnNoRole(name); f != nil {
+		return f
+	}
+	// renamed beyond recognition: found by the role it plays
+	if r, ok := roleFns[name]; ok {
+		if p.roleMemo == nil {
+			p.roleMemo = map[string]*ssa.Function{}
+		}
+		if f, done := p.roleMemo[name]; done {
+			return f
+		}
+		p.roleMemo[name] = nil // guards against re-entry
+		f := r(p)
+		p.roleMemo[name] = f
+		if f != nil {
+			p.fuzzy = append(p.fuzzy, name+" -> "+fnName(f)+" (by role)")
+		}
+		return f
+	}
+	return nil
+}
+
+// roleFns: functions that are found by what they do when their name is gone.
+var roleFns = map[string]func(p *Prog) *ssa.Function{
+	// the connection worker: the one method of the connection that its constructor starts with a go statement
+	"(*server.wsConn).outputWorker": func(p *Prog) *ssa.Function {
+		ctor := p.fnNoRole("(*server.Service).newWSConn")
+		if ctor == nil {
+			return nil
+		}
+		var hit *ssa.Function
+		for _, g := range p.withHelpers(ctor) {
+			for _, in := range instrsOf(g) {
+				if gs, ok := in.(*ssa.Go); ok {
+					if tf := gs.Common().StaticCallee(); tf != nil && tf.Signature.Recv() != nil && strings.HasSuffix(tf.Signature.Recv().Type().String(), "server.wsConn") {
+						if hit != nil && hit != tf {
+							return nil
+						}
+						hit = tf
+					}
+				}
+			}
+		}
+		return hit
+	},
+}
+
+func (p *Prog) fnNoRole(name string) *ssa.Function {
 	if f := p.ByNm[name]; f != nil {
 		return f
 	}
@@ -437,6 +536,13 @@ func anchorTypeMatches(t types.Type, want string) bool {
 	if _, isNamed := t.(*types.Named); isNamed {
 		if b, ok := t.Underlying().(*types.Basic); ok && b.Name() == want {
 			return true
+		}
+		// a container given a name (`type taskQueue []func()`)
+		switch t.Underlying().(type) {
+		case *types.Slice, *types.Map:
+			if types.TypeString(t.Underlying(), shortQual) == want {
+				return true
+			}
 		}
 	}
 	return false
